@@ -297,7 +297,7 @@ def build_tbl(
                 return (
                     yield from proc_functional(metadata, fun)(metadata, [arg])
                 )
-            except ArithmeticError as err:
+            except (ArithmeticError, MemoryError) as err:
                 raise error.UnsuspectedHangeulArithmeticError(
                     metadata, f"산술 오류가 발생했습니다: {err}"
                 ) from None
